@@ -78,6 +78,10 @@ def random_history(rng, k, reuse=None, all_old=False):
     for _ in range(n_el):
         while True:
             id_ = rng.randrange(48, 64) * 1000 + rng.randrange(1, 256)
+            if rng.random() < 0.12:
+                # an id that the bundled LOCAL tables of centre 98 (versions 1, 101) also define: the in-stream definition
+                # governs there too (it is merged last)
+                id_ = rng.choice([49193, 49194, 55003, 62190, 62191, 63190])
             if old_el and (all_old or rng.random() < 0.7):
                 id_ = rng.choice(old_el)
             if id_ not in used:
@@ -378,6 +382,8 @@ def run(ctx):
         # the data message may come from a centre whose LOCAL tables are bundled (98: versions 1, 2, 3, 101): the
         # in-stream definitions are merged into that table group as into every other
         ctr, ltv = rng.choice([(7, 0), (7, 0), (98, 1), (98, 101), (98, 2), (98, 0), (34, 1)])
+        if any(e['id'] in (49193, 49194, 55003, 62190, 62191, 63190) for e in h['b_defs']):
+            ctr, ltv = 98, rng.choice([1, 101])           # the centre whose bundled local tables define the same id
         h['centre_ltv'] = (ctr, ltv)
         data = craft_message(h['ids'], h['bits'], centre=ctr, ltv=ltv)
         sep = rng.choice([b'', b'\r\r\n', b'xxBUF'])
